@@ -70,6 +70,10 @@ def run(ctx: Context) -> None:
     ctx.rule('R11.2', "choice rule: conventions are tried registered-first then entry points, de-duplicated in order; matches are sorted by specificity descending with a stable sort; the first is chosen, none is refused; registering invalidates the cached list", floor=10)
     ctx.rule('R11.3', "detection is a function of the dataset: nothing reachable from check_dataset writes to the dataset, to class/global state, or reads a non-deterministic source", floor=5)
     ctx.rule('R11.4', "binding typestate: State.convention has one writer (bind_convention) whose only caller is Convention.bind behind the is_bound test; the accessor returns the bound object or constructs, binds and returns one object", floor=10)
+    ctx.rule('R11.5', "detection reads class level tables: no instance changes them in place, and a hand built ArakawaC keeps its names on the instance", floor=8)
+    from . import infra as _infra
+    _infra.class_state(ctx, 'R11.5')
+    _infra.arakawa_names(ctx, 'R11.5')
     ctx.assume("xarray creates one accessor/state object per Dataset object and none for copies (register_dataset_accessor caching)")
 
     # ------------------------------------------------------------------ R11.1
